@@ -21,9 +21,9 @@ OUTSIDE = ["terms deeper than 1 container level or wider than 2 elements", "maps
            "atoms/binaries longer than 2 bytes", "BigInt longer than 9 digits"]
 
 
-UNW = 4
+UNW = 10
 CAP = 150
-UWS = [(r"^terms::Rec::|^<terms::Rec as ", 50), (r"^terms::", 12), (r"^memcmp$", 18), (r"::bigint_to_[a-z0-9]+$", 12)]
+UWS = [(r"^terms::Rec::|^<terms::Rec as ", 50), (r"^terms::", 12), (r"^memcmp$", 18), (r"try_rfold|try_fold|iter_compare", 12), (r"::bigint_to_[a-z0-9]+$", 12)]
 # recursion depth of the term-recursive functions = depth of the deepest shape + 1 frames.
 # (Heap-stored elements and the untagged `Reference` variant have discriminants CBMC cannot
 # constant-propagate, so symex enters every arm at each level; the recursion bound plus the
@@ -62,26 +62,45 @@ def fn(name, body):
     return "#[cfg_attr(kani, kani::proof)]\npub fn %s() {\n%s\n    vk::reached();\n}\n" % (name, body)
 
 
+def pair_list(tier):
+    return shapes.pairs_same_family() + shapes.pairs_cross_family()
+
+
+def cross_groups():
+    """cross-family pairs (decided by type rank alone) grouped per first family: one harness each"""
+    g = {}
+    for a, b in shapes.pairs_cross_family():
+        g.setdefault(a, []).append(b)
+    return g
+
+
 def generate(tier, seed):
     L = shapes.LEAVES
     src = ["use crate::terms::*;\nuse crate::c11::*;\nuse crate::vk;\n"]
     hs = []
-    pairs = shapes.pairs_same_family() + shapes.pairs_cross_family()
-    for a, b in pairs:
+    for a, b in shapes.pairs_same_family():
         n = "c11_pair__%s__%s" % (a, b)
-        body = ("    let (a, _ra) = %s;\n    let (b, _rb) = %s;\n    pair_laws(&a, &b);\n    vk::leak(a); vk::leak(b);" % (L[a][0], L[b][0]))
+        body = ("    let (a, _ra) = %s;\n    let (b, _rb) = %s;\n    pair_laws(&a, &b);\n    borrowed_agrees(&a, &b);\n"
+                "    vk::leak(a); vk::leak(b);" % (L[a][0], L[b][0]))
         src.append(fn(n, body))
-        hs.append(Harness(n, "antisymmetry, a==b => cmp Equal, a==b => equal hash transcript, on shapes %s x %s" % (a, b),
+        hs.append(Harness(n, "antisymmetry, reflexivity, a==b => cmp Equal, a==b => equal hash transcript, and BorrowedTerm "
+                             "orders/equates the pair exactly as OwnedTerm, on shapes %s x %s" % (a, b),
                           unwind=UNW, unwindset=UWS, recursion=rec_for([a, b]), cap_s=CAP, cuts=cuts_for([a, b])))
-        n = "c11_borrowed__%s__%s" % (a, b)
-        body = ("    let (a, _ra) = %s;\n    let (b, _rb) = %s;\n    borrowed_agrees(&a, &b);\n    vk::leak(a); vk::leak(b);" % (L[a][0], L[b][0]))
+    for a, bs in cross_groups().items():
+        n = "c11_cross__%s" % a
+        body = "    let (a, _ra) = %s;\n" % L[a][0]
+        for k, b in enumerate(bs):
+            body += "    let (b%d, _r%d) = %s;\n    pair_laws(&a, &b%d);\n    borrowed_agrees(&a, &b%d);\n    vk::leak(b%d);\n" % (
+                k, k, L[b][0], k, k, k)
+        body += "    vk::leak(a);"
         src.append(fn(n, body))
-        hs.append(Harness(n, "BorrowedTerm orders/equates the pair exactly as OwnedTerm, shapes %s x %s" % (a, b),
-                          unwind=UNW, unwindset=UWS, recursion=rec_for([a, b]), cap_s=CAP, cuts=cuts_for([a, b])))
-    fam_tr = [["int", "float", "big8"], ["nil", "list1", "imp1"], ["bin1", "bit1", "str1"]]
+        hs.append(Harness(n, "pair laws + owned/borrowed agreement for %s against one representative of every other type rank: %s" % (a, bs),
+                          unwind=UNW, unwindset=UWS, recursion=rec_for([a] + bs), cap_s=CAP, cuts=cuts_for([a] + bs)))
+    fam_tr = [["int", "float", "big8"], ["nil", "list0", "imp1"], ["bin1", "bit1", "str1"]]
     if tier == "thorough":
-        fam_tr = [["int", "float", "big1", "big8", "big9"], ["nil", "list0", "list1", "list2", "imp1", "imp1n"],
-                  ["bin0", "bin1", "bin2", "bit1", "bit2", "str1"], ["tuple1i", "tuple1f", "tuple2"], ["extfun", "intfun"]]
+        fam_tr = [["int", "float", "big1", "big8", "big9"], ["nil", "list0", "list1", "imp1"],
+                  ["bin0", "bin1", "bin2", "bit1", "bit2", "str1"], ["tuple0", "tuple1i"], ["extfun", "intfun"], ["ref1", "ref2"],
+                  ["atom1", "atom2"]]
     for fam in fam_tr:
         for a in fam:
             for b in fam:
@@ -90,6 +109,7 @@ def generate(tier, seed):
                     body = ("    let (a, _ra) = %s;\n    let (b, _rb) = %s;\n    let (c, _rc) = %s;\n    trans(&a, &b, &c);\n"
                             "    vk::leak(a); vk::leak(b); vk::leak(c);" % (L[a][0], L[b][0], L[c][0]))
                     src.append(fn(n, body))
-                    hs.append(Harness(n, "transitivity of <= and of Equal on shapes %s, %s, %s" % (a, b, c), unwind=UNW, unwindset=UWS, recursion=rec_for([a, b, c]), cap_s=CAP,
+                    hs.append(Harness(n, "transitivity of <= and of Equal on shapes %s, %s, %s" % (a, b, c),
+                                      unwind=UNW, unwindset=UWS, recursion=rec_for([a, b, c]), cap_s=CAP,
                                       cuts=cuts_for([a, b, c])))
     return "\n".join(src), hs
